@@ -500,6 +500,14 @@ class Interp:
             ov = self.ev(n.orelse, e2, ctx) if e2 is not None else None
         finally:
             ctx.pc.pop()
+        # analysis state changed inside a branch (e.g. `seed(s) if s is not None else None`) flows back
+        feas = [e for e in (e1, e2) if e is not None]
+        if feas:
+            st = self._state_only(feas[0])
+            for e in feas[1:]:
+                st = self.join_env(st, self._state_only(e))
+            for k, v in st.items():
+                env[k] = v
         return self.h_ifexp(tv, bv, ov, n, ctx)
 
     def ev_Lambda(self, n, env, ctx):
